@@ -67,6 +67,28 @@ fn one_header(
     if cur.position() as usize != emitted.len() {
         return Err(("consumed", format!("read path consumed {} bytes, {} were emitted", cur.position(), emitted.len())));
     }
+    // decoder path A': the same bytes arriving one per read call (a TCP stream may fragment anywhere)
+    {
+        struct OneByOne<'a>(&'a [u8], usize);
+        impl std::io::Read for OneByOne<'_> {
+            fn read(&mut self, buf: &mut [u8]) -> std::io::Result<usize> {
+                if buf.is_empty() || self.1 >= self.0.len() {
+                    return Ok(0);
+                }
+                buf[0] = self.0[self.1];
+                self.1 += 1;
+                Ok(1)
+            }
+        }
+        let mut cd_f = cd.clone();
+        let mut r = OneByOne(&wire[..], 0);
+        let h_f = catch(|| cd_f.read_and_decrypt_server_header(&mut r))
+            .map_err(|m| ("read-panic", m))?
+            .map_err(|e| ("read-error", format!("with a reader that delivers one byte per call: {e}")))?;
+        if (h_f.size, h_f.opcode) != (h_a.size, h_a.opcode) || r.1 != emitted.len() {
+            return Err(("fragmented-read", format!("with a reader that delivers one byte per call the header is size={:#x} opcode={:#x} after {} bytes; in one piece size={:#x} opcode={:#x} after {} bytes", h_f.size, h_f.opcode, r.1, h_a.size, h_a.opcode, emitted.len())));
+        }
+    }
     // decoder path B: attempt, then iff asked one more byte
     let first4: [u8; 4] = [emitted[0], emitted[1], emitted[2], emitted[3]];
     let h_b = match catch(|| cd.attempt_decrypt_server_header(first4)).map_err(|m| ("attempt-panic", m))? {
